@@ -314,6 +314,7 @@ pub fn finish(cfg: &Cfg, meta: &PropMeta, report: Report, started: Instant, veri
     for (k, v) in &report.maxs { mm.insert(format!("max:{}", k), json!(v)); }
     cov.insert("extremes".into(), Value::Object(mm));
     cov.insert("notes".into(), json!(report.notes.iter().collect::<Vec<_>>()));
+    if let Ok(x) = std::env::var("HV_EXTRA_SUMMARY") { if let Ok(v) = serde_json::from_str::<Value>(&x) { cov.insert("extra_passes".into(), v); } }
     cov.insert("known_findings_seen".into(), json!(known_hit.iter().map(|(k, v)| json!({"signature": k, "occurrences": v.1})).collect::<Vec<_>>()));
     cov.insert("unlisted_violation_signatures".into(), json!(per_sig.keys().collect::<Vec<_>>()));
     cov.insert("harness_errors".into(), json!(report.harness_errors.len()));
